@@ -40,12 +40,19 @@ const (
 	aStartJoin
 	aTimeoutOff
 	aIsolate
+	aSplitLeader
+	aHealOne
+	aElect
+	aLagSnapshot
+	aJoinFlow
+	aStaleLeaderDance
 	numActionKinds
 )
 
 var actionNames = [...]string{"tick", "tickAll", "step", "deliver", "deliverTo", "drop", "dup", "propose", "read",
 	"confChange", "apply", "snapshot", "crash", "restart", "stepCrash", "partition", "heal", "transfer", "status",
-	"rounds", "startJoin", "timeoutOff", "isolate"}
+	"rounds", "startJoin", "timeoutOff", "isolate",
+	"splitLeader", "healOne", "elect", "lagSnapshot", "joinFlow", "staleLeaderDance"}
 
 type simAction struct {
 	Kind int
@@ -67,6 +74,8 @@ type simShape struct {
 	ElectionRTT int
 	Warm        bool
 	TimeoutOffs []int
+	TinyMsg     bool // one entry per Replicate message / apply batch (maxEntrySize, maxEntriesToApplySize)
+	TinyInMem   bool // tiny in-memory entry slices and frequent in-mem GC
 }
 
 type simCase struct {
@@ -93,6 +102,7 @@ func baseWeights() map[int]int {
 		aTick: 6, aTickAll: 6, aStep: 10, aDeliver: 14, aDeliverTo: 6, aDrop: 3, aDup: 2, aPropose: 6, aRead: 3,
 		aConfChange: 2, aApply: 6, aSnapshot: 2, aCrash: 2, aRestart: 3, aStepCrash: 2, aPartition: 1, aHeal: 1,
 		aTransfer: 1, aStatus: 2, aRounds: 8, aStartJoin: 2, aTimeoutOff: 1, aIsolate: 1,
+		aSplitLeader: 3, aHealOne: 2, aElect: 2, aLagSnapshot: 1, aJoinFlow: 1, aStaleLeaderDance: 1,
 	}
 }
 
@@ -211,6 +221,8 @@ func genShape(t *rapid.T, p profile) simShape {
 		ElectionRTT: rapid.SampledFrom([]int{3, 4, 5, 6}).Draw(t, "ert"),
 		Warm:        rapid.IntRange(0, 4).Draw(t, "warm") > 0,
 	}
+	sh.TinyMsg = rapid.Bool().Draw(t, "tinymsg")
+	sh.TinyInMem = rapid.Bool().Draw(t, "tinyinmem")
 	nsp := rapid.IntRange(p.minSpare, 3).Draw(t, "nspare")
 	for i := 0; i < nsp; i++ {
 		if len(p.spareBias) > 0 {
@@ -256,6 +268,58 @@ type simResult struct {
 	msg     string
 	foreign bool
 	s       *sim
+}
+
+func (s *sim) isolateBoth(x uint64) {
+	for _, id := range s.ids {
+		if id != x {
+			s.blocked[[2]uint64{id, x}] = true
+			s.blocked[[2]uint64{x, id}] = true
+		}
+	}
+}
+
+func (s *sim) healReplica(x uint64) {
+	for k := range s.blocked {
+		if k[0] == x || k[1] == x {
+			delete(s.blocked, k)
+		}
+	}
+}
+
+// campaignNow ticks one replica until it starts a campaign and then exchanges
+// messages for a few tick-less rounds.
+func (s *sim) campaignNow(r *simReplica, rounds int) {
+	if !r.running() || r.kind != kVoter {
+		return
+	}
+	startTerm := r.raft().term
+	for i := 0; i < 2*int(s.opts.electionRTT)+1 && r.running(); i++ {
+		st := r.raft().state
+		if (st == candidate || st == preVoteCandidate) && r.raft().term >= startTerm || st == leader {
+			break
+		}
+		s.tick(r)
+	}
+	for i := 0; i < rounds+1; i++ {
+		s.round(false)
+	}
+}
+
+// deliverBetween delivers, in order, every message in flight between two replicas.
+func (s *sim) deliverBetween(x, y uint64) {
+	var rest, mine []simMsg
+	for _, m := range s.net {
+		if (m.m.From == x && m.m.To == y) || (m.m.From == y && m.m.To == x) {
+			mine = append(mine, m)
+		} else {
+			rest = append(rest, m)
+		}
+	}
+	s.net = rest
+	for _, m := range mine {
+		s.deliverMsg(m.m)
+	}
 }
 
 func (s *sim) rep(i int) *simReplica { return s.reps[s.ids[i%len(s.ids)]] }
@@ -527,6 +591,186 @@ func (s *sim) doAction(a simAction) {
 				break
 			}
 		}
+	case aSplitLeader:
+		// the current leader keeps accepting proposals that reach nobody (or only one
+		// follower) while the rest elects a new leader: produces divergent suffixes
+		l := s.leader()
+		if l == nil {
+			break
+		}
+		s.flag("split-leader")
+		keep := uint64(0)
+		if a.C%3 == 1 {
+			keep = s.rep(a.B).id
+		}
+		for _, id := range s.ids {
+			if id != l.id && id != keep {
+				s.blocked[[2]uint64{id, l.id}] = true
+				s.blocked[[2]uint64{l.id, id}] = true
+			}
+		}
+		s.propose(l, fmt.Sprintf("k%d", a.B%3), 1+a.A%2)
+		s.step(l, 0)
+		if keep != 0 {
+			for i := 0; i < 3; i++ {
+				s.deliverBetween(l.id, keep)
+				s.step(s.reps[keep], 0)
+				s.step(l, 0)
+			}
+		}
+		if a.C%2 == 0 {
+			// let the others elect someone
+			for i := 0; i < 3*int(s.opts.electionRTT); i++ {
+				s.round(true)
+				if nl := s.leader(); nl != nil && nl.id != l.id && nl.raft().term > l.raft().term {
+					break
+				}
+			}
+		}
+	case aStaleLeaderDance:
+		// the dance behind figure 8 of the raft paper: leader L keeps an unreplicated
+		// entry, B is elected and also keeps one, L comes back and replicates its old
+		// entry, L goes away, B comes back. Every step has generated variations.
+		l := s.leader()
+		if l == nil {
+			break
+		}
+		var others []*simReplica
+		for _, r := range s.runningReps() {
+			if r.id != l.id && r.kind == kVoter {
+				others = append(others, r)
+			}
+		}
+		if len(others) < 2 {
+			break
+		}
+		s.flag("stale-leader-dance")
+		b := others[a.A%len(others)]
+		s.blocked = map[[2]uint64]bool{}
+		s.isolateBoth(l.id)
+		s.propose(l, "k0", 1)
+		s.step(l, 0)
+		s.campaignNow(b, 2)
+		if b.running() && b.raft().state == leader {
+			s.step(b, 0)
+			s.isolateBoth(b.id)
+			if a.B%2 == 0 {
+				s.propose(b, "k1", 1)
+				s.step(b, 0)
+			}
+		}
+		s.healReplica(l.id)
+		s.isolateBoth(b.id)
+		for i := 0; i < 3 && l.running() && l.raft().state != leader; i++ {
+			s.campaignNow(l, 2)
+		}
+		for i := 0; i < 1+a.C%4; i++ {
+			s.round(false)
+		}
+		if a.B%3 == 0 {
+			s.crash(l)
+		} else {
+			s.isolateBoth(l.id)
+		}
+		s.healReplica(b.id)
+		if !l.up {
+			s.blocked = map[[2]uint64]bool{}
+		} else {
+			s.isolateBoth(l.id)
+		}
+		for i := 0; i < 3 && b.running() && b.raft().state != leader; i++ {
+			s.campaignNow(b, 2)
+		}
+		for i := 0; i < 3; i++ {
+			s.round(false)
+		}
+	case aHealOne:
+		x := s.rep(a.A).id
+		for k := range s.blocked {
+			if k[0] == x || k[1] == x {
+				delete(s.blocked, k)
+			}
+		}
+	case aElect:
+		// replica A times out now and its election messages are exchanged
+		r := s.rep(a.A)
+		if !r.running() || r.kind != kVoter {
+			break
+		}
+		for i := 0; i < 2*int(s.opts.electionRTT)+1 && r.running(); i++ {
+			st := r.raft().state
+			if st == candidate || st == leader {
+				break
+			}
+			s.tick(r)
+		}
+		for i := 0; i < 3; i++ {
+			s.round(false)
+		}
+	case aLagSnapshot:
+		// one follower misses a stretch of the log that the leader then compacts
+		l := s.leader()
+		f := s.rep(a.A)
+		if l == nil || f.id == l.id {
+			break
+		}
+		s.flag("lag-snapshot-flow")
+		for _, id := range s.ids {
+			if id != f.id {
+				s.blocked[[2]uint64{id, f.id}] = true
+				s.blocked[[2]uint64{f.id, id}] = true
+			}
+		}
+		for i := 0; i < 2+a.B%3; i++ {
+			s.propose(l, "k0", 1)
+			s.round(false)
+		}
+		s.snapshot(l, uint64(a.C%2))
+		s.round(false)
+		for k := range s.blocked {
+			if k[0] == f.id || k[1] == f.id {
+				delete(s.blocked, k)
+			}
+		}
+	case aJoinFlow:
+		// add the next spare through the leader, start it, let it catch up, and
+		// (for a non-voting spare) sometimes promote it
+		l := s.leader()
+		if l == nil {
+			break
+		}
+		for _, id := range s.ids {
+			x := s.reps[id]
+			if x.initial || x.started {
+				continue
+			}
+			cc := pb.ConfigChange{ReplicaID: id, Address: simAddr(id), ConfigChangeId: l.mem.CCID}
+			switch x.kind {
+			case kVoter:
+				cc.Type = pb.AddNode
+			case kNonVoting:
+				cc.Type = pb.AddNonVoting
+			case kWitness:
+				cc.Type = pb.AddWitness
+			}
+			s.flag("join-flow")
+			s.configChange(l, cc)
+			for i := 0; i < 3; i++ {
+				s.round(true)
+			}
+			s.start(x)
+			s.flag("join-started")
+			for i := 0; i < 2+a.B%4; i++ {
+				s.round(true)
+			}
+			if x.kind == kNonVoting && a.C%2 == 0 {
+				if l2 := s.leader(); l2 != nil {
+					s.flag("cc-promotion")
+					s.configChange(l2, pb.ConfigChange{Type: pb.AddNode, ReplicaID: id, Address: simAddr(id), ConfigChangeId: l2.mem.CCID})
+				}
+			}
+			break
+		}
 	case aTimeoutOff:
 		r := s.rep(a.A)
 		r.timeoutOff = uint64(a.B)
@@ -727,6 +971,21 @@ func (s *sim) stuckOnSelfRemoved() (uint64, bool) {
 		if all && any {
 			return r0.id, true
 		}
+		// shape B: the self-removed replica held the only full copy of some committed
+		// entry (the others are behind, or are witnesses holding metadata only), so
+		// nobody that may lead can ever be up to date again
+		for idx, sig := range s.committed {
+			held := false
+			for _, r := range s.runningReps() {
+				if r.kind != kWitness && s.holds(r, idx, sig.term) {
+					held = true
+					break
+				}
+			}
+			if !held && s.holds(r0, idx, sig.term) {
+				return r0.id, true
+			}
+		}
 	}
 	return 0, false
 }
@@ -868,11 +1127,49 @@ func runCase(c simCase, p profile, tracing bool) (res simResult) {
 	opts := simOpts{preVote: c.Shape.PreVote, checkQuorum: c.Shape.CheckQuorum, ordered: c.Shape.Ordered,
 		electionRTT: uint64(c.Shape.ElectionRTT), allowDup: p.allowDup}
 	var s *sim
+	inFamily := func(sig string) bool {
+		if p.family[sig] || sig == "harness-bug" {
+			return true
+		}
+		for _, pre := range p.prefixes {
+			if strings.HasPrefix(sig, pre) {
+				return true
+			}
+		}
+		return false
+	}
+	// violations that leave the simulated replica in a state the run cannot
+	// continue from always end the case; all other monitors are pure observers,
+	// so a violation of another property's family is noted and the run goes on
+	// (it must not hide a later violation of this property's own family)
+	fatal := func(sig string) bool {
+		for _, pre := range []string{"raft-panic:", "raft-error:", "persist-gap", "snapshot-content-missing",
+			"apply-gap", "recover-older-snapshot", "out-of-date-snapshot-pushed", "compact-failed"} {
+			if strings.HasPrefix(sig, pre) {
+				return true
+			}
+		}
+		return false
+	}
 	fail := func(sig string, format string, args ...interface{}) {
+		if !inFamily(sig) && !fatal(sig) {
+			s.flag("foreign-violation:" + sig)
+			return
+		}
 		panic(simViolation{msg: sig + "\x00" + fmt.Sprintf(format, args...)})
 	}
 	s = newSim(opts, fail)
 	s.tracing = tracing
+	// documented tunables (package level vars): make boundaries reachable
+	defer func(a, b, c, d, e uint64) {
+		maxEntrySize, maxEntriesToApplySize, entrySliceSize, minEntrySliceSize, inMemGcTimeout = a, b, c, d, e
+	}(maxEntrySize, maxEntriesToApplySize, entrySliceSize, minEntrySliceSize, inMemGcTimeout)
+	if c.Shape.TinyMsg {
+		maxEntrySize, maxEntriesToApplySize = 150, 150
+	}
+	if c.Shape.TinyInMem {
+		entrySliceSize, minEntrySliceSize, inMemGcTimeout = 6, 2, 3
+	}
 	res.s = s
 	defer func() {
 		if pv := recover(); pv != nil {
@@ -882,16 +1179,7 @@ func runCase(c simCase, p profile, tracing bool) (res simResult) {
 			}
 			parts := strings.SplitN(v.msg, "\x00", 2)
 			res.sig, res.msg = parts[0], parts[1]
-			inFam := p.family[res.sig]
-			for _, pre := range p.prefixes {
-				if strings.HasPrefix(res.sig, pre) {
-					inFam = true
-				}
-			}
-			if res.sig == "harness-bug" {
-				inFam = true
-			}
-			res.foreign = !inFam
+			res.foreign = !inFamily(res.sig)
 		}
 	}()
 	s.setup(c.Shape)
